@@ -581,6 +581,12 @@ func (fn *fileNode) size() int64 {
 
 // truncate truncates the file.
 func (fn *fileNode) truncate(size int64) {
+	// a file whose size changes has been modified, whoever truncates it
+	// (File.Truncate and OpenFile with O_TRUNC update the time even when the size stays the same).
+	if int(size) != len(fn.data) {
+		fn.mtime = time.Now().UnixNano()
+	}
+
 	if size == 0 {
 		fn.data = nil
 
